@@ -35,7 +35,7 @@ type c06Case struct {
 	ListCut int         `json:"listcut"` // verify against list[:N-ListCut]
 }
 
-var c06Kinds = []string{"seq+1", "nonce+1", "ts+1", "emitter-flip", "chain+1", "cl+1", "bodyflip", "swap", "dup", "reindex", "outsider", "recid", "zero-r", "zero-s", "sigflip", "index-eq-len", "index-255", "unsorted-rotate", "recid-alias", "recid-alias", "signed-by-position"}
+var c06Kinds = []string{"seq+1", "nonce+1", "ts+1", "emitter-flip", "chain+1", "cl+1", "bodyflip", "swap", "dup", "reindex", "outsider", "recid", "zero-r", "zero-s", "sigflip", "index-eq-len", "index-255", "unsorted-rotate", "recid-alias", "recid-alias", "signed-by-position", "mirror-s", "mirror-s"}
 
 func genC06(t *rapid.T) c06Case {
 	c := c06Case{}
@@ -171,6 +171,11 @@ func runC06(c c06Case) (*vh.Violation, vh.Outcome) {
 					copy(ws[i].sig[:], vh.SignDigest(c.KeyOf[i], digest[:]))
 					break
 				}
+			}
+		case "mirror-s": // not a corruption: the high-s form of a signature is the same signature
+			if len(ws) >= 1 {
+				i := a % len(ws)
+				copy(ws[i].sig[:], vh.MirrorS(ws[i].sig[:]))
 			}
 		case "zero-r":
 			if len(ws) >= 1 {
